@@ -3338,7 +3338,11 @@ XPath::stepPattern(
 
             const XalanNode::NodeType   nodeType = context->getNodeType();
 
-            if(nodeType != XalanNode::ATTRIBUTE_NODE)
+            // Neither an attribute node nor the root node is ever a
+            // child, so they cannot match a step on the child axis.
+            if(nodeType != XalanNode::ATTRIBUTE_NODE &&
+               nodeType != XalanNode::DOCUMENT_NODE &&
+               nodeType != XalanNode::DOCUMENT_FRAGMENT_NODE)
             {
                 opPos += 3;
 
